@@ -85,21 +85,22 @@ fn main() -> ExitCode {
     }
 }
 
-/// A call into riti that has not returned after HANG_S seconds is a violation of C01's
+/// A call into riti that has not returned after HANG_TICKS watchdog ticks is a violation of C01's
 /// "no unbounded blow-up in time" wherever it happens; it is reported under the running check's id
 /// (the check cannot decide anything else either) and the process exits at once.
 fn spawn_watchdog(id: String, tier: String) {
     std::thread::spawn(move || loop {
         std::thread::sleep(std::time::Duration::from_millis(1000));
+        let now = drv::TICK.fetch_add(1, std::sync::atomic::Ordering::Relaxed) + 1;
         let reg: Vec<_> = drv::REGISTRY.lock().unwrap().iter().filter_map(|w| w.upgrade()).collect();
         for j in reg {
             let j = j.lock().unwrap();
             if let Some(t) = j.started {
-                if t.elapsed().as_secs_f64() > drv::HANG_S {
+                if now.saturating_sub(t) > drv::HANG_TICKS {
                     let dir = format!("{}/replays/{}", drv::verif_root(), id);
                     let _ = std::fs::create_dir_all(&dir);
                     let path = format!("{}/{}-hang.json", dir, tier);
-                    let detail = format!("the last event of this history had not returned after {} s (unbounded time)", drv::HANG_S);
+                    let detail = format!("the last event of this history had not returned after {} watchdog ticks of one second (unbounded time)", drv::HANG_TICKS);
                     let _ = std::fs::write(&path, serde_json::to_string_pretty(&j.to_json(&id, "hang", &detail)).unwrap());
                     write_abort_evidence(&id, &tier, &detail);
                     println!("VIOLATION property={} replay={}", id, path);
